@@ -224,6 +224,88 @@ def oracle(r):
 
 
 # ---------------------------------------------------------------------------------------------------------
+# sequences of queries on one store
+
+def parse_items_ok(x):
+    out = []
+    for e in x.split(","):
+        if e:
+            a, b, am, fd = e.split(":")
+            out.append((int(a), int(b), None if am == "n" else int(am), None if fd == "n" else int(fd)))
+    return out
+
+
+def parse_items_err(x):
+    out = []
+    for e in x.split(","):
+        if e:
+            a, b, c = e.split(":")
+            out.append((int(a), int(b), int(c)))
+    return out
+
+
+def parse_seq(line):
+    d = {}
+    for tok in line.split()[1:]:
+        k, v = tok.split("=", 1)
+        d[k] = v
+    store = dec_tracks(d["store"])
+    queries = []
+    for q in d["q"].split(";"):
+        if not q:
+            continue
+        f = q.split("~")
+        queries.append({"kind": "owned" if f[0] == "o" else "foreign",
+                        "cands": dec_tracks(f[1]) if f[0] == "f" else [],
+                        "ids": [int(x) for x in f[1].split(",") if x] if f[0] == "o" else [],
+                        "cls": int(f[2]), "ob": f[3] == "1", "policy": f[4],
+                        "store": store, "mv": int(d["mv"]), "S": int(d["S"])})
+    results = []
+    for r in d.get("res", "").split(";"):
+        if r == "-" or not r:
+            results.append(None)
+        else:
+            f = dict(x.split("=", 1) for x in r.split("~"))
+            results.append({"ok": parse_items_ok(f["ok"]), "err": parse_items_err(f["err"]), "other": int(f["other"])})
+    return {"raw": line, "mv": int(d["mv"]), "S": int(d["S"]), "store": store, "queries": queries, "results": results,
+            "status": d["status"], "text": "mv=%s S=%s store=%s q=%s" % (d["mv"], d["S"], d["store"], d["q"])}
+
+
+def seq_oracle(sq):
+    """every handle that was read yields exactly what THIS query specifies (a partially read error stream: a
+    sub-multiset of the right size) - nothing from another query, nothing missing"""
+    if sq["status"] != "ok":
+        return [("C10:" + sq["status"], "a sequence of queries on one store did not complete: " + sq["status"])]
+    if len(sq["results"]) != len(sq["queries"]):
+        return [("C10:query-sequence", "%d queries, %d results" % (len(sq["queries"]), len(sq["results"])))]
+    bad = []
+    for i, (q, res) in enumerate(zip(sq["queries"], sq["results"])):
+        if q["policy"] == "drop":
+            continue
+        if res is None:
+            bad.append(("C10:query-sequence", "query %d (%s) has no result" % (i, q["policy"])))
+            continue
+        ok, err = spec(q)
+        if key_sort(res["ok"]) != key_sort(ok):
+            bad.append(("C10:query-sequence", "query %d of the sequence (%s, class %d, %s): ok results differ from what this query specifies: missing %s extra %s"
+                        % (i, q["kind"], q["cls"], q["policy"], sorted((Counter(ok) - Counter(res["ok"])).elements(), key=str)[:5],
+                           sorted((Counter(res["ok"]) - Counter(ok)).elements(), key=str)[:5])))
+        if q["policy"].startswith("part"):
+            k = int(q["policy"][4:] or 1)
+            extra = Counter(res["err"]) - Counter(err)
+            if extra or len(res["err"]) != min(k, len(err)) or res["other"]:
+                bad.append(("C10:query-sequence-error-stream", "query %d (%s): the %d error items read are %s, this query's errors are %s"
+                            % (i, q["policy"], k, key_sort(res["err"]), key_sort(err))))
+        elif key_sort(res["err"]) != key_sort(err) or res["other"]:
+            bad.append(("C10:query-sequence-error-stream",
+                        "query %d of the sequence (%s, class %d, handles %s): the error stream is %s (+%d other), this query's errors are %s; "
+                        "the other queries of the sequence: %s"
+                        % (i, q["kind"], q["cls"], q["policy"], key_sort(res["err"]), res["other"], key_sort(err),
+                           ["q%d %s class %d" % (j, x["policy"], x["cls"]) for j, x in enumerate(sq["queries"]) if j != i])))
+    return bad
+
+
+# ---------------------------------------------------------------------------------------------------------
 # model side
 
 def coq_track(t):
@@ -423,6 +505,7 @@ def run(chk):
     n = 12 if chk.tier == "quick" else 16
     rc, out, err = vlib.harness_run("sched", ["c10", "--seed", chk.seed, "--n", n, "--tier", chk.tier], timeout=900)
     runs = [parse_run(l) for l in out.split("\n") if l.startswith("run ")]
+    seqs = [parse_seq(l) for l in out.split("\n") if l.startswith("seq ")]
     chk.log("implementation: %d forced/free runs (harness rc=%d)" % (len(runs), rc))
     if rc not in (0, 3) or not runs:
         chk.broken.append("harness sched c10 failed rc=%d: %s" % (rc, err[-1500:]))
@@ -495,6 +578,21 @@ def run(chk):
         "model_runs_validated": 0 if model is None else len(model),
     })
 
+    seq_fail = [(sq, b) for sq in seqs for b in [seq_oracle(sq)] if b]
+    pol = Counter(q["policy"].rstrip("0123456789") for sq in seqs for q in sq["queries"])
+    chk.coverage.update({"query_sequences": len(seqs), "query_sequence_failures": len(seq_fail),
+                         "query_sequence_policies": dict(pol),
+                         "query_sequences_with_errors_in_2_queries": sum(1 for sq in seqs if sum(1 for r in sq["results"] if r and r["err"]) >= 2)})
+    chk.coverage["evaluations"] = len(runs) + len(seqs)
+    if seq_fail:
+        sq, b = min(seq_fail, key=lambda x: len(x[0]["queries"]))
+        key, what = b[0]
+        chk.violation(key, what, {
+            "input": sq["text"],
+            "results": [None if r is None else {"ok": key_sort(r["ok"]), "err": key_sort(r["err"])} for r in sq["results"]],
+            "expected": [{"ok": key_sort(spec(q)[0]), "err": key_sort(spec(q)[1])} for q in sq["queries"]],
+            "replay_cmd": "printf '%s\\n' '" + sq["text"] + "' > /tmp/c10.txt && " + vlib.harness_bin("sched") + " c10replay --file /tmp/c10.txt",
+            "failing_sequences": len(seq_fail), "broken": chk.broken})
     if oracle_fail:
         seen = set()
         for i, bad in oracle_fail:
@@ -541,6 +639,18 @@ def replay(chk, path):
     ensure_cargo_cfg()
     ok, out = vlib.harness_build(["sched"])
     text = rep.get("input") or rep.get("correspondence_case") or rep.get("trace_case")
+    if " q=" in " " + text:
+        path2 = os.path.join(vlib.ALT or vlib.CACHE, "c10_replay_%d.txt" % os.getpid())
+        with open(path2, "w") as fh:
+            fh.write(text + "\n")
+        rc, out, err = vlib.harness_run("sched", ["c10replay", "--file", path2], timeout=300)
+        os.remove(path2)
+        lines = [l for l in out.split("\n") if l.startswith("seq ")]
+        bad = seq_oracle(parse_seq(lines[0])) if lines else [("C10:no-output", "the harness produced no result")]
+        for k, w in bad:
+            print("ORACLE:", k, w)
+        print("REPRODUCED" if bad else "not reproduced")
+        return 1 if bad else 0
     r = run_text(text)
     if r is None:
         print("harness produced no run")
